@@ -80,7 +80,7 @@ TB = ("Trusted: Coq 8.16.1 kernel (vm_compute, no native_compute), no axioms (Pr
       "ExtrOcamlBasic extraction + hand-written OCaml driver, the Rust harness and Python generators/oracles. ")
 
 MANIFEST = dict(
-    text="Theorems (Coq 8.16, closed under the global context) about executable Gallina models of LZ13CompressionFormat::compress (shared match search and greedy loop with look-ahead 0x1000, the three LZ11 length forms in i32 arithmetic, the 0x13 wrapper, calculate_lz13_header, the reservation, after the repair of F12) and of the library's decoder: for EVERY non-empty byte string shorter than 2^24 and either arithmetic profile the result is Ok(0x13, three bytes, s) where a strict LZ11 parser written from the format description accepts s completely with the input length (either header form, flag groups, every reference in one of the three length forms with displacement 1-4096 reaching only into produced data, nothing left over) and its tokens expand to the input; LZ13CompressionFormat::decompress returns the input (any profile combination), also through the enum CompressionFormat; the empty input compresses and decompresses to itself. TOTALITY at full strength: a second, machine-level model of compress (the size guard of F21 `length as u64 > 0xFFFF_FFFF`, calculate_lz13_header with seven wrapping i32 variables, `as usize` sign extension and checked slice indexing, the reservation as an observable, the main loop with get_occurrence_length with checked indexing and usize arithmetic in a profile) is proved equal to the first model below 2^31 bytes and proved, for EVERY input and either profile, to return Ok below 2^32 bytes - the empty input included - and Err(InputTooLarge) from 2^32 bytes on: never a panic. 'Never aborts' is a theorem about the allocation request: result.reserve asks for exactly 12+n+(n+7)/8 bytes in both profiles (at most 2n+13; the expression before the repair of F12 is refuted at n = 0), out_buffer.reserve_exact for 33. The round trip is proved below 4 GiB for the list model and for the machine-level model (the decoder ignores the three wrapper length bytes, the only place where the two could differ above 2^31). The models are tied to /repo on every run as for C08 (both build profiles; the three wrapper length bytes are compared for inputs <= 1200 bytes, masked above; 2^24-2 .. 2^24+1 bytes implementation + oracle only); an independent Python strict parser/expander judges every implementation output.",
+    text="Theorems (Coq 8.16, closed under the global context) about executable Gallina models of LZ13CompressionFormat::compress (shared match search and greedy loop with look-ahead 0x1000, the three LZ11 length forms in i32 arithmetic, the 0x13 wrapper, calculate_lz13_header, the reservation, after the repair of F12) and of the library's decoder: for EVERY non-empty byte string shorter than 2^24 and either arithmetic profile the result is Ok(0x13, three bytes, s) where a strict LZ11 parser written from the format description accepts s completely with the input length (either header form, flag groups, every reference in one of the three length forms with displacement 1-4096 reaching only into produced data, nothing left over) and its tokens expand to the input; LZ13CompressionFormat::decompress returns the input (any profile combination), also through the enum CompressionFormat; the empty input compresses and decompresses to itself. TOTALITY at full strength: a second, machine-level model of compress (the size guard of F21 `length as u64 > 0xFFFF_FFFF`, calculate_lz13_header with seven wrapping i32 variables, `as usize` sign extension and checked slice indexing, the reservation as an observable, the main loop with get_occurrence_length with checked indexing and usize arithmetic in a profile) is proved equal to the first model below 2^31 bytes and proved, for EVERY input and either profile, to return Ok below 2^32 bytes - the empty input included - and Err(InputTooLarge) from 2^32 bytes on: never a panic. 'Never aborts' is a theorem about the allocation request: result.reserve asks for exactly 12+n+(n+7)/8 bytes in both profiles (at most 2n+13; the expression before the repair of F12 is refuted at n = 0), out_buffer.reserve_exact for 33. The round trip is proved below 4 GiB for the list model and for the machine-level model (the decoder ignores the three wrapper length bytes, the only place where the two could differ above 2^31). The models are tied to /repo on every run as for C08 (both build profiles; the three wrapper length bytes - which the property does not constrain - are compared for inputs <= 1200 bytes and a difference is COUNTED in the evidence (`wrapper_diffs`), not treated as a failure; masked above; 2^24-2 .. 2^24+1 bytes implementation + oracle only); an independent Python strict parser/expander judges every implementation output.",
     note=TB + 'Modelled, not verified (A-std): Vec, slices, casts, Wrapping<i32>, 64-bit usize. Inputs of 2 GiB and more cannot be run: above 2^31 the machine-level model is tied to src/lz13.rs:93-160 by reading only. An allocation failure of the reservation aborts the process and is outside the model (the harness would record ABORT). The value of the wrapper length bytes has no theorem (the property does not constrain it). notes/lz.md lists 8 mutations of /repo and the seeded change C09-1, all reported by the quick check.',
     technique='Coq proof (as C08; machine-level refinement of the i32 header computation; totality by invariant) + extracted-model differential check (debug and release builds) + independent Python stream parser as oracle',
     ref='DESIGN.md section 4 (C09); notes/lz.md')
